@@ -242,6 +242,23 @@ Theorem C11_burst_one_listing_per_host anns p q :
   In p (ra_peers anns) -> In q (ra_peers anns) -> same_key p q -> p = q.
 Proof. exact (ra_store_one_per_host anns p q). Qed.
 
+(* floods of hundreds to thousands of announces, then re-announces with new ports once the store is at
+   rest (engine `api`, srv_api_flood.go): the model history is flood 1 ++ flood 2, each in any order *)
+Theorem C11_two_floods_order_irrelevant l1 l1' l2 l2' q :
+  Permutation l1 l1' -> Permutation l2 l2' -> distinct_keys l1 -> distinct_keys l2 ->
+  (In q (ra_peers (l1 ++ l2)) <-> In q (ra_peers (l1' ++ l2'))).
+Proof. exact (ra_two_bursts_perm l1 l1' l2 l2' q). Qed.
+
+Theorem C11_two_floods_complete l1 l2 p :
+  distinct_keys l1 -> distinct_keys l2 ->
+  (In p l2 \/ (In p l1 /\ forall x, In x l2 -> ~ same_key p x)) ->
+  In (mkNA (p_ip p) (p_port p)) (ra_store_get (p_ih p) (l1 ++ l2)).
+Proof. exact (ra_two_floods_complete l1 l2 p). Qed.
+
+Theorem C11_reannounce_replaces l1 l2 p q :
+  distinct_keys l2 -> In q l2 -> same_key p q -> p <> q -> ~ In p (ra_peers (l1 ++ l2)).
+Proof. exact (ra_reannounce_replaces l1 l2 p q). Qed.
+
 (* ================= non-vacuity: concrete histories, real SHA-1 ================= *)
 Definition ex_cfg : config :=
   mkCfg 1 false true true true (fun _ => true) false ["s"; "e"; "c"; "r"; "e"; "t"]%byte.
@@ -374,3 +391,6 @@ Print Assumptions C11_burst_listing_order_irrelevant.
 Print Assumptions C11_burst_complete.
 Print Assumptions C11_burst_only_announced.
 Print Assumptions C11_burst_one_listing_per_host.
+Print Assumptions C11_two_floods_order_irrelevant.
+Print Assumptions C11_two_floods_complete.
+Print Assumptions C11_reannounce_replaces.
